@@ -1,5 +1,7 @@
 import Casket.Model.Replacer
 import Casket.Spec.Replacer
+import Casket.Model.Log
+import Casket.Spec.Log
 import Driver.Proto
 /-
 Streams of C20.
@@ -108,8 +110,109 @@ def replaceJudge (f : List String) (out : String) : String :=
       | none => "bad:unparsable:" ++ out
       | some b => Casket.ReplacerSpec.verdict c.env c.fmt (.out b)
 
+/-!
+  c20.log  directives conc requests errlens
+     directives  ','-separated  D<hex scope>[:<hex except>]*        (one `log` directive each, in file order)
+     requests    ','-separated  <hex path>:<ops>:<ret>:<0|1 panics>  ops '.'-separated h<code> | w<n>
+     errlens     ','-separated  <status>=<length of the default error body>
+     out = per directive (';') its lines ('|') as id.status.size, then '#', then per request status.size
+-/
+open Casket.Log in
+/-- `httpserver.Path.Matches` restricted to the clean paths the generator uses: prefix test on
+lower-cased text, "/" and "" match everything. -/
+def matchPath (p base : Bytes) : Bool :=
+  base == [47] || base == [] || isPrefix (base.map lowerByte) (p.map lowerByte)
+
+open Casket.Log in
+def parseDirective (s : String) : Option Directive :=
+  if !s.startsWith "D" then none else
+  match hexParts (s.drop 1).toString with
+  | some (scope :: ex) => some { scope := scope, excepts := ex }
+  | _ => none
+
+open Casket.Log in
+def parseOp (s : String) : Option Op :=
+  if s.startsWith "h" then (s.drop 1).toString.toNat?.map Op.header
+  else if s.startsWith "w" then (s.drop 1).toString.toNat?.map Op.write
+  else none
+
+open Casket.Log in
+def parseRequest (s : String) : Option (Bytes × Outcome) :=
+  match s.splitOn ":" with
+  | [p, ops, ret, pan] => do
+    let ops ← (if ops = "" then some [] else (ops.splitOn ".").mapM parseOp)
+    pure (← Driver.unhex p, { ops := ops, ret := ← ret.toNat?, panics := pan = "1" })
+  | _ => none
+
+def parseErrLens (s : String) : Option (List (Nat × Nat)) :=
+  if s = "" then some [] else (s.splitOn ",").mapM fun e =>
+    match e.splitOn "=" with
+    | [a, b] => do pure (← a.toNat?, ← b.toNat?)
+    | _ => none
+
+structure LogCase where
+  ds : List Casket.Log.Directive
+  reqs : List (Bytes × Casket.Log.Outcome)
+  errLen : Nat → Nat
+
+def parseLog : List String → Option LogCase
+  | [ds, _conc, reqs, errlens] => do
+    let ds ← (if ds = "" then some [] else (ds.splitOn ",").mapM parseDirective)
+    let reqs ← (if reqs = "" then some [] else (reqs.splitOn ",").mapM parseRequest)
+    let el ← parseErrLens errlens
+    pure { ds := ds, reqs := reqs, errLen := fun s => ((el.find? fun p => p.1 == s).map (·.2)).getD 0 }
+  | _ => none
+
+open Casket.Log in
+def showLine (id : Nat) (l : Line) : String := s!"{id}.{l.status}.{l.size}"
+
+open Casket.Log in
+def logModel (f : List String) : String :=
+  match parseLog f with
+  | none => "bad-case"
+  | some c =>
+    let rules := logParse c.ds
+    let rs := c.reqs.map fun (p, o) => serverServe matchPath c.errLen rules p o
+    let ids := List.range rs.length
+    let perEntry := (List.range c.ds.length).map fun e =>
+      "|".intercalate ((ids.zip rs).flatMap fun (id, r) =>
+        (r.lines.filter fun (l : Line) => l.entry == e).map (showLine id))
+    let clients := rs.map fun r => s!"{r.client.status}.{r.client.size}"
+    ";".intercalate perEntry ++ "#" ++ ",".intercalate clients
+
+def parseObsLine (s : String) : Option (Nat × Nat × Nat) :=
+  match s.splitOn "." with
+  | [a, b, c] => do pure (← a.toNat?, ← b.toNat?, ← c.toNat?)
+  | _ => none
+
+open Casket.Log in
+def logJudge (f : List String) (out : String) : String :=
+  match parseLog f, out.splitOn "#" with
+  | some c, [ls, cl] =>
+    let entries := if c.ds.isEmpty then [] else ls.splitOn ";"
+    if entries.length ≠ c.ds.length then "bad:unparsable:" ++ out else
+    -- all observed lines as (request id, Line)
+    let obs : Option (List (Nat × Line)) :=
+      ((List.range entries.length).zip entries).foldlM (init := []) fun acc (e, s) => do
+        let ls ← (if s = "" then some [] else (s.splitOn "|").mapM parseObsLine)
+        pure (acc ++ ls.map fun (id, st, sz) => (id, { entry := e, status := st, size := sz }))
+    let clients : Option (List (Nat × Nat)) :=
+      if cl = "" then some [] else (cl.splitOn ",").mapM fun s =>
+        match s.splitOn "." with
+        | [a, b] => do pure (← a.toNat?, ← b.toNat?)
+        | _ => none
+    match obs, clients with
+    | some obs, some clients =>
+      if clients.length ≠ c.reqs.length then "bad:unparsable:" ++ out else
+      if obs.any fun (id, _) => id ≥ c.reqs.length then "bad:unwanted-line:line for a request that was never made" else
+      Casket.LogSpec.firstBad <| ((List.range c.reqs.length).zip (c.reqs.zip clients)).map fun (id, ((p, o), (cs, cz))) =>
+        Casket.LogSpec.verdict matchPath c.ds p o.panics ((obs.filter fun x => x.1 == id).map (·.2)) cs cz
+    | _, _ => "bad:unparsable:" ++ out
+  | _, _ => "bad:unparsable:" ++ out
+
 def streams : List Driver.Stream := [
-  { name := "c20.replace", model := replaceModel, judge := replaceJudge }
+  { name := "c20.replace", model := replaceModel, judge := replaceJudge },
+  { name := "c20.log", model := logModel, judge := logJudge }
 ]
 
 end Driver.C20
